@@ -72,10 +72,10 @@ ENGINES["delsim"] = {
     "serves": ["C15"],
     "kind": "single-goroutine event loop over 2-3 real space nodes (settings object, deletion state, deletion manager with its delete-loop goroutine on the fake clock, head index) with a simulated head-update network, scheduler-released deleter steps and restarts",
     "real_vs_stub": {"real": ["deletionstate", "deletionmanager (deleter, delete loop via periodicsync on the fake clock)", "settings.SettingsObject + settingsstate (state builder, change factory)", "synctree / objecttree (PutSyncTree, BuildSyncTreeOrGetRemote, treeRemoteGetter, Delete)",
-                              "headsync.DiffManager + app/ldiff fed by the head-storage observer", "headstorage, spacestorage, acl list, any-store on tmpfs"],
+                              "headsync.HeadSync component (diff syncer, head updater goroutine, DiffManager, app/ldiff)", "headstorage, spacestorage, acl list, any-store on tmpfs behind the fault-injecting wrapper"],
                      "stub": ["tree manager (harness cache over the real build/put functions; DeleteTree is a blocking point the scheduler releases, honouring cancellation)",
                               "transport: harness SyncClient; head updates cross as bytes through a message pool (any order, dropped, duplicated); requests are served at once",
-                              "account / space-state components; sync status = no-op; object-sync dispatch replaced by the event loop"]},
+                              "account / space-state / config / node configuration / peer manager (no peers) / tree syncer / key-value service components; sync status = no-op; object-sync dispatch replaced by the event loop"]},
 }
 
 ENGINES["byzsim"] = {
@@ -180,7 +180,7 @@ PROPS = {
                 "(random subset, duplicates, reopen-from-storage at random points, then an in-order completion pass). Order oracles every 4th step, after convergence and during redelivery: stored order (ascending order id) == order of a tree rebuilt in full from storage; "
                 "live view (incrementally grown / reduced / reopened) == full order restricted to its members; history view up to a random change likewise; parents first in stored and presented order; order ids of stored changes never change; "
                 "replicas holding equal change sets store identical sequences; an addition reported as Append (listener Update or local AddContent) leaves the previously presented sequence a prefix of the new one (modulo members dropped by reduction). "
-                "evaluations = per-replica order checks. Non-trivial as C01.",
+                "the add-sequence views (changes stored after insert number k, k = 0 and a seeded cut) equal the full order restricted to them. evaluations = per-replica order checks. Non-trivial as C01.",
         "assumptions": COMMON_ASSUMPTIONS + ["differential oracle: the reference order is the real tree builder's full rebuild from storage (the property's own 'incremental equals rebuilt'); the sort is not re-implemented",
                                              "only deliveries the protocol produces are used (real head updates / responses), so every receiver state is legitimate"],
         "technique": "deterministic simulation: seeded message schedules and redelivery permutations over real replicas, differential order oracles (incremental vs rebuilt vs reduced vs reopened vs other replicas) after every few events",
@@ -317,7 +317,7 @@ PROPS = {
         "level": "exploration",
         "budget": {"quick": 60, "thorough": 900},
         "race_leg": True,
-        "rule": "one run = one real pubsub engine in the relay role (node; 0-2 other responsible nodes) and 1-2 real pubsub engines in the client role (accounts A, B), each with its private stream pool, dial pool, dispatch loop and resync loop on the fake clock; a harness membership table (accounts A, B, C x spaces sA, sB) that changes during the run; in 15% of runs the node has no membership checker (every proven identity may subscribe and publish). "
+        "rule": "one run = one real pubsub engine in the relay role (node; 0-2 other responsible nodes) and 1-2 real pubsub engines in the client role (accounts A, B), each with its private stream pool, dial pool, dispatch loop and resync loop on the fake clock; a harness membership table (accounts A, B, C x spaces sA, sB) that changes during the run; in 15% of runs the node has no membership checker (every proven identity may subscribe and publish); in 20% the node's publish budget is in reach (1 message/s, burst 2-4: the model keeps a token bucket per peer, spent by authorised client publishes only). "
                 "40-260 actions: the seeded scheduler runs one goroutine up to its next blocking point (every MsgRecv/MsgSend of every stream end and the yield points inside the engine and the pool: before each lock of handleSubscribe/handleUnsubscribe/fanout/evict/CloseSpace/onStreamClose, between dropping interest and dropping tags, addStream/removeStream/streamClose/Broadcast/SendById/getStreams); "
                 "remotes open streams to the node (accounts A/B/C, a second device of an account, an unverified peer, another responsible node) and send subscribe frames (1-3 valid patterns over the segment alphabet {a, b, acc, account ids, *, >}; invalid patterns: empty, leading/trailing/doubled separator, wildcard in the middle of a segment, '>' not last, 17 segments, 257 bytes; bad or foreign space ids), unsubscribe frames (one pattern, all, unknown), "
                 "publish frames (well-formed; invalid topic, short id, oversized, someone else's acc/ topic, identity replaced or missing, damaged signature, relayed flag from non-nodes, relayed messages from other nodes, foreign space), status/empty frames; remotes close; node writes fail; the node calls EvictMember / RevalidateMembers / CloseSpace; "
@@ -327,7 +327,7 @@ PROPS = {
                 "after every scheduler grant the engine's per-stream interest records, trie refcounts and Len, and the pool's tags equal the model (three views agree, no empty leftovers); client handlers are called exactly for (active subscription x message) pairs that pass identity, membership, ownership, freshness, signature and first-delivery checks - compared after every received frame and API call; client API verdicts; "
                 "after teardown in a seeded order (unsubscribe or CloseSpace per client and space, then every stream ends) node and clients hold no tries, records, tags, streams or counters. evaluations = node state comparisons.",
         "assumptions": COMMON_ASSUMPTIONS + ["interleavings at the granularity of harness blocking points and the verif yield points; regions between two points are atomic (no lock is held at a yield)",
-                                             "rate limiting and pattern caps are configured out of reach; dedup ring larger than the run (ring eviction, which by design re-admits old ids inside the skew window, is not exercised)",
+                                             "pattern caps are configured out of reach; the publish budget is in reach in 20% of runs only; dedup ring larger than the run (ring eviction, which by design re-admits old ids inside the skew window, is not exercised)",
                                              "payload encryption (Deps.Crypto) is not wired: keyless spaces", "each dial pool has one worker (two anonymous workers reaching the same yield point at once cannot be told apart deterministically; the pool's own concurrency is C19's subject); engines start 7 ms apart so their periodic timers never fire at the same fake instant", "account keys are derived from the seeded byte stream (Go's key generation deliberately defeats seeding)", "a subscribe frame is either all valid or carries one invalid pattern (the statement does not say what a mixed frame registers)"],
         "technique": "deterministic simulation: seeded task scheduler over real relay and client pubsub engines with harness-owned streams, membership, clock, faults (remote close, write errors, evictions, hostile relay); reference model stepped at the scheduling points, delivery/forward/handler-call oracles and three-view state agreement after every grant, leak check after teardown",
         "level_text": "Seeded exploration of interleavings x histories x topic/pattern inputs over the real engines; a reference model from the property text decides every delivery, forward and handler call, and the engine's bookkeeping is compared with it after every scheduler grant.",
@@ -356,7 +356,7 @@ PROPS = {
         "budget": {"quick": 60, "thorough": 900},
         "rule": "one run = 2-3 nodes of one space (own any-store, own writer account), 15-70 events: create an object or a child bound (derived root with ParentId) to an existing object on any node, edit, DeleteObject through the settings object on any node (deletion records plain or snapshot at a seeded 0/20/50% rate), "
                 "head updates of settings and object trees delivered in any order / dropped / duplicated (unknown trees are fetched from the sender through the real remote getter), one step of a node's delete worker (it blocks before every object until the scheduler releases it), the worker's 20 s tick on the fake clock, "
-                "restart of a node from its store (also while the worker is between 'queued' and 'deleted' or between two objects of a pass), a deletion recorded locally in the deletion state without the settings log, and resurrection attempts for ids whose deletion the node has recorded: PutSyncTree of the original root, fetch from a peer that still stores the tree, late head updates. "
+                "restart of a node from its store (also while the worker is between 'queued' and 'deleted' or between two objects of a pass), a deletion recorded locally in the deletion state without the settings log, storage calls of one node failing during delete-worker steps (30% of runs), the delete worker stepped in the middle of head sync's start-up on a restart (at the storage write that ends the index fill), and resurrection attempts for ids whose deletion the node has recorded: PutSyncTree of the original root, fetch from a peer that still stores the tree, late head updates. "
                 "Oracles after every event on the touched node: the deleted-status of every object is monotone (also across restarts); the deletion state never forgets an id; a tombstoned id is not in the head index (DiffManager.AllIds); after status Deleted no change rows remain; put fails with ErrTreeStorageAlreadyDeleted and fetch fails; "
                 "a stored child of a parent whose deletion was carried out is at least queued; every 5 events and at the end: the node's deletion state covers the set derived from scratch from its settings log (BuildHistoryTree + StateBuilder.Build), and nodes with equal settings logs derive equal sets. "
                 "a head update for a tombstoned id that is not stored must not bring rows or an open tree back; a child whose storage is created after its parent's deletion was recorded is queued at once. "
